@@ -51,6 +51,7 @@ def build_app(explicit_parser=False):
             foo.set_args_parser(shared)
     with c.command("baz") as baz:
         baz.set_description("the baz command")
+        baz.add_alias("bz")
         baz.add_argument("y", Argument.OPTIONAL, "the y")
         baz.set_handler(h)
         if shared is not None:
@@ -65,7 +66,7 @@ def intern(s):
     return _INTERN.setdefault(s, "t%d" % len(_INTERN))
 
 
-def run_line(app, calls, line, argv=False):
+def run_line(app, calls, line, argv=False, lists=None):
     from clikit.args import ArgvArgs, StringArgs
     from clikit.io.input_stream import StringInputStream
     from clikit.io.output_stream import BufferedOutputStream
@@ -73,7 +74,9 @@ def run_line(app, calls, line, argv=False):
     del calls[:]
     out, err = BufferedOutputStream(), BufferedOutputStream()
     try:
-        raw = ArgvArgs(["prog"] + line.split()) if argv else StringArgs(line)
+        # lists: the caller keeps one argv list per line and hands the same list object in whenever the line comes again
+        lst = ["prog"] + line.split() if lists is None else lists.setdefault(line, ["prog"] + line.split())
+        raw = ArgvArgs(lst) if argv else StringArgs(line)
         st = app.run(raw, StringInputStream(""), out, err)
     except BaseException as e:  # noqa
         st = "EXC:" + type(e).__name__
@@ -81,13 +84,15 @@ def run_line(app, calls, line, argv=False):
             "calls": intern(json.dumps(calls, default=str))}
 
 
-def run_history(lines, kinds, explicit_parser=False):
+def run_history(lines, kinds, explicit_parser=False, all_argv=False):
     app, calls = build_app(explicit_parser)
     evs = []
+    lists = {}
     for n, (line, kind) in enumerate(zip(lines, kinds)):
-        shared = run_line(app, calls, line, argv=(n % 2 == 1))   # command-string and argv form alternate
+        argv = all_argv or n % 2 == 1    # command-string and argv form alternate, or argv throughout
+        shared = run_line(app, calls, line, argv=argv, lists=lists)
         fapp, fcalls = build_app(explicit_parser)
-        fresh = run_line(fapp, fcalls, line, argv=(n % 2 == 1))
+        fresh = run_line(fapp, fcalls, line, argv=argv)
         evs.append({"kind": kind, "line": line, "shared": shared, "fresh": fresh})
     return evs
 
@@ -100,7 +105,7 @@ EXTRA_LINES = ["foo v -o 3", "foo --opt", "baz -h", "help", "help foo bar", "foo
 def run(ctx):
     quick = ctx.tier == "quick"
     ctx.rule = (
-        "(a) TLC explores every sequence of MaxRuns line kinds (14 kinds: valid, surplus arguments, unknown option, help X, X --help, "
+        "(a) TLC explores every sequence of MaxRuns line kinds (20 kinds: valid, by alias, surplus arguments, unknown option, help X, X --help, "
         "failing help requests, version, undefined command, empty line) on the application model with its per-command leniency "
         "override (SameAsFresh, NoResidue; the pinned variant must violate SameAsFresh); each sequence is run on ONE real "
         "ConsoleApplication and every run compared with a freshly built application by RunHistoryTrace (status, stdout, stderr, "
@@ -108,7 +113,7 @@ def run(ctx):
         "customising table styles, repeated renders of every component vs. a fresh process; non-trivial = a sequence with a help "
         "request or an error before its last run / a style history with >= 2 operations"
     )
-    ctx.assumptions += ["same process, same terminal width; each run gets new buffered streams and a new StringArgs object (re-using one RawArgs object for two runs is outside the statement: HelpResolver removes a leading 'help' token from it)"]
+    ctx.assumptions += ["same process, same terminal width; each run gets new buffered streams and a new StringArgs / ArgvArgs object (re-using one RawArgs object for two runs is outside the statement: HelpResolver removes a leading 'help' token from it); the caller's argv LIST object is handed in again whenever its line comes again"]
     r = ctx.model(SPEC, "MC_RunHistory", "MC_RunHistory_defect.cfg", name="pinned-help-leniency-must-violate", expect_ok=False, workers=4)
     if "SameAsFresh" not in r.violated:
         raise T.MachineryError("pinned variant of RunHistory no longer violates SameAsFresh")
@@ -124,8 +129,9 @@ def run(ctx):
         kinds = [e["kind"] for e in h]
         ls = [lines[k] for k in kinds]
         ep = len(traces) % 2 == 1
-        traces.append(run_history(ls, kinds, ep))
-        cases.append({"part": "history", "lines": ls, "kinds": kinds, "explicit_parser": ep})
+        aa = len(traces) % 3 != 0
+        traces.append(run_history(ls, kinds, ep, aa))
+        cases.append({"part": "history", "lines": ls, "kinds": kinds, "explicit_parser": ep, "all_argv": aa})
         ctx.count()
         if any(k.startswith("help") or "many" in k or k in ("undefined", "baz_badopt") for k in kinds[:-1]):
             ctx.nontriv(tuple(kinds))
@@ -134,8 +140,9 @@ def run(ctx):
     for k in range(150 if quick else 3000):
         seq = [ctx.rng.choice(pool) for _ in range(ctx.rng.randint(2, 6))]
         ep = k % 2 == 1
-        traces.append(run_history([s[0] for s in seq], [s[1] for s in seq], ep))
-        cases.append({"part": "history", "lines": [s[0] for s in seq], "kinds": [s[1] for s in seq], "explicit_parser": ep})
+        aa = k % 3 != 0
+        traces.append(run_history([s[0] for s in seq], [s[1] for s in seq], ep, aa))
+        cases.append({"part": "history", "lines": [s[0] for s in seq], "kinds": [s[1] for s in seq], "explicit_parser": ep, "all_argv": aa})
         ctx.count()
         ctx.nontriv(("r", k))
     ctx.validate(SPEC, "RunHistoryTrace", "RunHistoryTrace.cfg", traces, cases=cases, name="run-histories", chunk=300)
@@ -150,6 +157,6 @@ def replay(ctx, path):
     ctx.nontriv(2)
     ctx.sample(c)
     if c.get("part") == "history":
-        ctx.validate(SPEC, "RunHistoryTrace", "RunHistoryTrace.cfg", [run_history(c["lines"], c["kinds"], c.get("explicit_parser", False))], cases=[c], name="replay")
+        ctx.validate(SPEC, "RunHistoryTrace", "RunHistoryTrace.cfg", [run_history(c["lines"], c["kinds"], c.get("explicit_parser", False), c.get("all_argv", False))], cases=[c], name="replay")
     else:
         c17_styles.replay_styles(ctx, c)
